@@ -161,13 +161,33 @@ def d2_quad(ctx):
         g = [unparse(t) for t, pol in guards_of(m, par[0], stop=f) if pol]
         t = unparse(par[0].args[0])
         # integrand: np.vectorize(lambda x: jac(pval, x)[i])
+        import copy as _copy
         integ = [s for s in loop.body[0].body if isinstance(s, ast.Assign)] if isinstance(loop.body[0], ast.If) else []
-        oki = len(integ) == 1 and unparse(integ[0].value) == 'np.vectorize(lambda x: jac(pval, x)[%s])' % i
         lims = par[0].args[0]
-        okl = isinstance(lims, ast.Subscript) and isinstance(lims.value, ast.Call) and call_name(lims.value) == 'squad' and const(lims.slice) == 0 and \
-            [unparse(x) for x in lims.value.args[1:3]] in (['bounds[0]', 'bounds[1]'], ['bval[0]', 'bval[1]']) and unparse(lims.value.args[0]) == unparse(integ[0].targets[0]) if oki else False
+        sq_call = lims.value if isinstance(lims, ast.Subscript) and isinstance(lims.value, ast.Call) and call_name(lims.value) == 'squad' else None
+        # the integrand: through a temporary or written into the call; a loop index bound as lambda default (i=i) is the same function
+        iexpr = integ[0].value if len(integ) == 1 else (sq_call.args[0] if sq_call is not None and sq_call.args else None)
+        itxt = None
+        if iexpr is not None:
+            ie = _copy.deepcopy(iexpr)
+            for lam in ast.walk(ie):
+                if isinstance(lam, ast.Lambda) and lam.args.defaults:
+                    nd = len(lam.args.defaults)
+                    pairs = list(zip(lam.args.args[-nd:], lam.args.defaults))
+                    if all(isinstance(d_, ast.Name) and d_.id == a_.arg for a_, d_ in pairs):
+                        lam.args.args = lam.args.args[:-nd]
+                        lam.args.defaults = []
+            itxt = unparse(ie)
+        oki = itxt == 'np.vectorize(lambda x: jac(pval, x)[%s])' % i
+        okl = False
+        if oki and sq_call is not None and const(lims.slice) == 0:
+            la = [unparse(x) for x in sq_call.args[1:3]]
+            kwl = {k_.arg: unparse(k_.value) for k_ in sq_call.keywords if k_.arg in ('a', 'b')}
+            if len(la) < 2 and set(kwl) == {'a', 'b'}:
+                la = [kwl['a'], kwl['b']]
+            okl = la in (['bounds[0]', 'bounds[1]'], ['bval[0]', 'bval[1]']) and (len(integ) != 1 or unparse(sq_call.args[0]) == unparse(integ[0].targets[0]))
         ok = oki and okl and g == ['isobs[%s]' % i] and unparse(loop.iter) == 'range(Np)'
-        ctx.check(rule, key, bool(ok), 'parameter i contributes the integral over [a, b] of (d f/d p)[i] iff p[i] is an observable', 'parameter term is %s (integrand %s) under %s' % (t, [unparse(s.value) for s in integ], g), m.loc(par[0]))
+        ctx.check(rule, key, bool(ok), 'parameter i contributes the integral over [a, b] of (d f/d p)[i] iff p[i] is an observable', 'parameter term is %s (integrand %s) under %s' % (t, itxt, g), m.loc(par[0]))
         jd = find_def(f, 'jac')
         ctx.check(rule, 'integrate.py:quad#jacobian', len(jd) == 1 and unparse(jd[0].value) == 'jacobian(%s)' % func_, 'jac differentiates func in its parameter argument', 'jac = %s' % [unparse(s.value) for s in jd])
     # order: parameters first then limits, as in pobs + bobs
@@ -217,7 +237,7 @@ def d2_quad(ctx):
     # sibling agreement: the integral of the value and the integrals of the parameter derivatives are the same integral
     # (same weight function, same singular points, same accuracy): every call of the integrator forwards the same options
     sq = [c for c in walk(f) if isinstance(c, ast.Call) and call_name(c) == 'squad']
-    opts = {tuple(sorted((k.arg or '**', unparse(k.value)) for k in c.keywords)) for c in sq}
+    opts = {tuple(sorted((k.arg or '**', unparse(k.value)) for k in c.keywords if k.arg not in ('a', 'b', 'func'))) for c in sq}     # the limits may be passed by keyword
     ctx.check(rule, 'integrate.py:quad#same-options', len(sq) >= 2 and len(opts) == 1 and any(k[0] == '**' for k in next(iter(opts))),
               'all %d integrator calls forward the same option dictionary' % len(sq),
               'the integrator calls differ in their options: %s (a weight / singular-point option that reaches only the value integral gives a gradient of a different integral)' % sorted(opts), m.loc(f))
